@@ -1,4 +1,4 @@
-(* C16: dhms2sec (sec2dhms n) = n and hms2sec (sec2hms n) = n for every int64 n except -2^63 *)
+(* C16: dhms2sec (sec2dhms n) = n and hms2sec (sec2hms n) = n for EVERY int64 n (incl. -2^63 after the uint64-magnitude repair) *)
 From Miller Require Import Base.Bytes C16.Model C16.TextProofs C16.FormatProofs C16.GmtProofs.
 Open Scope char_scope.
 Open Scope Z_scope.
@@ -104,9 +104,9 @@ Proof.
   rewrite (dhms_loop_flat L HL) by (cbn [List.length]; lia). reflexivity.
 Qed.
 
-(* ---- splitIntToDHMS away from -2^63 *)
+(* ---- splitIntToDHMS / splitMagnitudeToDHMS on every magnitude up to 2^63 *)
 Lemma split_dhms_spec n :
-  MIN64 < n <= MAX64 ->
+  MIN64 <= n <= MAX64 + 1 ->
   let u := Z.abs n in let sg := if n <? 0 then -1 else 1 in
   let s := u mod 60 in let u1 := u / 60 in let m := u1 mod 60 in let u2 := u1 / 60 in
   let h := u2 mod 24 in let u3 := u2 / 24 in
@@ -114,10 +114,8 @@ Lemma split_dhms_spec n :
                  else if u3 =? 0 then (0, h * sg, m, s) else (u3 * sg, h, m, s).
 Proof.
   intros Hn u sg s u1 m u2 h u3. unfold split_dhms.
-  assert (Hu : 0 <= u <= MAX64) by (unfold u, MIN64, MAX64 in *; lia).
-  assert (Eu : (if n <? 0 then wrap64 (- n) else n) = u).
-  { destruct (Z.ltb_spec n 0); [rewrite wrap64_id by (unfold MIN64, MAX64 in *; lia)|]; unfold u; lia. }
-  rewrite Eu. fold sg.
+  assert (Hu : 0 <= u <= MAX64 + 1) by (unfold u, MIN64, MAX64 in *; lia).
+  fold u sg.
   rewrite (Z.rem_mod_nonneg u 60), (Z.quot_div_nonneg u 60) by lia. fold s u1.
   assert (Hs : 0 <= s < 60) by (apply Z.mod_pos_bound; lia).
   assert (Hu1 : 0 <= u1 <= MAX64) by (unfold u1, MAX64 in *; split; [apply Z.div_pos; lia | apply Z.div_le_upper_bound; lia]).
@@ -160,9 +158,14 @@ Proof. intros Hx Hu. unfold good. split; [now apply numtext_padnn|]. split; [app
 Ltac unwrap := repeat match goal with |- context [wrap64 ?z] => rewrite (wrap64_id z) by (unfold MIN64, MAX64 in *; lia) end.
 Ltac goods := repeat (apply Forall_cons; [first [apply good_lead | apply good_pad]; [unfold MAX64 in *; lia | tauto] |]); apply Forall_nil.
 
-Theorem dhms_roundtrip n : MIN64 < n <= MAX64 -> dhms2sec (sec2dhms n) = Some n.
+Lemma dhms_roundtrip_minint64 : dhms2sec (sec2dhms MIN64) = Some MIN64 /\ hms2sec (sec2hms MIN64) = Some MIN64.
+Proof. vm_compute. split; reflexivity. Qed.
+
+Theorem dhms_roundtrip n : MIN64 <= n <= MAX64 -> dhms2sec (sec2dhms n) = Some n.
 Proof.
-  intros Hn. unfold sec2dhms. rewrite (split_dhms_spec n Hn). cbv zeta.
+  intros Hn0. destruct (Z.eq_dec n MIN64) as [->|Hne]; [exact (proj1 dhms_roundtrip_minint64)|].
+  assert (Hn : MIN64 < n <= MAX64) by lia.
+  unfold sec2dhms. rewrite (split_dhms_spec n ltac:(unfold MIN64, MAX64 in *; lia)). cbv zeta.
   set (u := Z.abs n). set (s := u mod 60). set (u1 := u / 60). set (m := u1 mod 60). set (u2 := u1 / 60).
   set (h := u2 mod 24). set (u3 := u2 / 24).
   assert (Hu : 0 <= u <= MAX64) by (unfold u, MIN64, MAX64 in *; lia).
@@ -230,7 +233,7 @@ Lemma split_hms u :
   let '(d, h, m, s) := split_dhms u in
   wrap64 (h + wrap64 (d * 24)) = u / 3600 /\ m = (u / 60) mod 60 /\ s = u mod 60.
 Proof.
-  intros Hu. assert (Hr : MIN64 < u <= MAX64) by (unfold MIN64, MAX64 in *; lia).
+  intros Hu. assert (Hr : MIN64 <= u <= MAX64 + 1) by (unfold MIN64, MAX64 in *; lia).
   rewrite (split_dhms_spec u Hr). cbv zeta. rewrite Z.abs_eq by lia.
   destruct (Z.ltb_spec u 0); [lia|].
   destruct (Z.eqb_spec (u / 60) 0) as [Z1|Z1].
@@ -260,12 +263,14 @@ Proof.
   unfold MAX64 in *. unwrap. exact E.
 Qed.
 
-Theorem hms_roundtrip n : MIN64 < n <= MAX64 -> hms2sec (sec2hms n) = Some n.
+Theorem hms_roundtrip n : MIN64 <= n <= MAX64 -> hms2sec (sec2hms n) = Some n.
 Proof.
-  intros Hn. unfold sec2hms.
-  set (u := if n <? 0 then wrap64 (- n) else n).
+  intros Hn0. destruct (Z.eq_dec n MIN64) as [->|Hne]; [exact (proj2 dhms_roundtrip_minint64)|].
+  assert (Hn : MIN64 < n <= MAX64) by lia.
+  unfold sec2hms.
+  set (u := Z.abs n).
   assert (Hu : 0 <= u <= MAX64 /\ u = Z.abs n).
-  { unfold u. destruct (Z.ltb_spec n 0); [rewrite wrap64_id by (unfold MIN64, MAX64 in *; lia)|]; unfold MIN64, MAX64 in *; lia. }
+  { unfold u. unfold MIN64, MAX64 in *; lia. }
   destruct Hu as [Hu Eu]. clearbody u.
   pose proof (split_hms u Hu) as Hs. destruct (split_dhms u) as [[[d h] m] s]. destruct Hs as (Eh & Em & Es).
   rewrite Eh. subst m s.
